@@ -399,8 +399,12 @@ def timedelta(s):
             seconds = val
         else:
             raise TypeError(f'bad part {part} in {s}')
-    return datetime.timedelta(weeks=weeks, days=days, hours=hours,
-                              minutes=minutes, seconds=seconds)
+    try:
+        return datetime.timedelta(weeks=weeks, days=days, hours=hours,
+                                  minutes=minutes, seconds=seconds)
+    except OverflowError as e:
+        # infinite or too large a number of weeks, days, ...
+        raise ValueError(f'{e} in {s}')
 
 
 stock_datatypes = {
